@@ -51,40 +51,8 @@ def run(prog: Program, col: Collector, tier: str, refs: Optional[Refs] = None, c
 
     # ---------------------------------------------------------------- R04.1
     col.rule("R04.1", "substitution pairs are applied at once, never one at a time to an evolving result", floor=3)
-    n_loops = 0
-    # substitution collections by role: the parameter in the position of the `subs` field of Subs in rules registered for
-    # Subs, the second parameter of every `eager_subs` method, of `substitute`, of the Subs constructor and metaclass; and
-    # locals derived from them by copy constructors / comprehensions
     colls = _subs_collections(prog, refs, cat)
-    for f in prog.funcs.values():
-        if isinstance(f.node, ast.Lambda) or f.fq not in colls:
-            continue
-        coll = colls[f.fq]
-        for lp in [n for n in walk_no_nested(f.node) if isinstance(n, ast.For)]:
-            # a loop over (name, value) pairs of a substitution: target is a 2-tuple, iterable is a name that looks like a
-            # substitution collection by role (parameter called like the Subs field, or `.items()` of one)
-            if not (isinstance(lp.target, ast.Tuple) and len(lp.target.elts) == 2 and all(isinstance(x, ast.Name) for x in lp.target.elts)):
-                continue
-            it = lp.iter
-            base = it.func.value if isinstance(it, ast.Call) and isinstance(it.func, ast.Attribute) and it.func.attr == "items" else it
-            if not (isinstance(base, ast.Name) and base.id in coll):
-                continue
-            n_loops += 1
-            pair = {x.id for x in lp.target.elts}
-            carried = []
-            for st in ast.walk(lp):
-                if isinstance(st, ast.Assign) and len(st.targets) == 1 and isinstance(st.targets[0], ast.Name):
-                    x = st.targets[0].id
-                    uses_prev = any(isinstance(y, ast.Name) and y.id == x and isinstance(y.ctx, ast.Load) for y in ast.walk(st.value))
-                    if uses_prev and _is_subst_expr(st.value, refs, pair):
-                        carried.append(st)
-            construct = f"{f.fq}::for {norm(lp.target)} in {norm(lp.iter)}"
-            if carried:
-                col.violation(construct, f"`{norm(carried[0])[:90]}` substitutes the current pair into the value built by the previous iterations: a later pair rewrites what an earlier "
-                              "pair introduced ((x*y)(x=y+1, y=x) becomes sequential), so the substitution is not simultaneous", f.loc(carried[0]))
-            else:
-                col.ok(construct, "the loop does not thread a value through one-pair substitutions", f.loc(lp), nontrivial=False)
-    col.cur.analysed["loops_over_substitution_pairs"] = n_loops
+    _sequential_loops(prog, col, refs, cat, colls)
 
     # ---------------------------------------------------------------- R04.2
     col.rule("R04.2", "names that are not inputs of f are ignored", floor=2)
@@ -184,7 +152,7 @@ def run(prog: Program, col: Collector, tier: str, refs: Optional[Refs] = None, c
     _slice_composition(prog, col, refs, cat)
 
     # ---------------------------------------------------------------- R04.19
-    col.rule("R04.19", "a renaming set that is filtered by a test on itself is filtered to a fixpoint", floor=1)
+    col.rule("R04.19", "a renaming set that is filtered by a test on itself is filtered to a fixpoint", floor=0)
     _self_referential_filter(prog, col, refs, cat)
 
     # ---------------------------------------------------------------- R04.20
@@ -229,6 +197,42 @@ def run(prog: Program, col: Collector, tier: str, refs: Optional[Refs] = None, c
         col.check(max(d.lineno for d in dels) < min(a.lineno for a in adds), f"{si.fq}::remove before add", "keys are removed before value inputs are added (f(x=x+1) keeps x)",
                   "value inputs are added before the keys are removed: an input of a value that has the name of a substituted key is deleted again (f(x=x+1) loses x)", si.loc(adds[0]))
     return col
+
+
+def _sequential_loops(prog: Program, col: Collector, refs: Refs, cat: Catalogue, colls: Dict[str, Set[str]]):
+    n_loops = 0
+    # substitution collections by role: the parameter in the position of the `subs` field of Subs in rules registered for
+    # Subs, the second parameter of every `eager_subs` method, of `substitute`, of the Subs constructor and metaclass; and
+    # locals derived from them by copy constructors / comprehensions
+    for f in prog.funcs.values():
+        if isinstance(f.node, ast.Lambda) or f.fq not in colls:
+            continue
+        coll = colls[f.fq]
+        for lp in [n for n in walk_no_nested(f.node) if isinstance(n, ast.For)]:
+            # a loop over (name, value) pairs of a substitution: target is a 2-tuple, iterable is a name that looks like a
+            # substitution collection by role (parameter called like the Subs field, or `.items()` of one)
+            if not (isinstance(lp.target, ast.Tuple) and len(lp.target.elts) == 2 and all(isinstance(x, ast.Name) for x in lp.target.elts)):
+                continue
+            it = lp.iter
+            base = it.func.value if isinstance(it, ast.Call) and isinstance(it.func, ast.Attribute) and it.func.attr == "items" else it
+            if not (isinstance(base, ast.Name) and base.id in coll):
+                continue
+            n_loops += 1
+            pair = {x.id for x in lp.target.elts}
+            carried = []
+            for st in ast.walk(lp):
+                if isinstance(st, ast.Assign) and len(st.targets) == 1 and isinstance(st.targets[0], ast.Name):
+                    x = st.targets[0].id
+                    uses_prev = any(isinstance(y, ast.Name) and y.id == x and isinstance(y.ctx, ast.Load) for y in ast.walk(st.value))
+                    if uses_prev and _is_subst_expr(st.value, refs, pair):
+                        carried.append(st)
+            construct = f"{f.fq}::for {norm(lp.target)} in {norm(lp.iter)}"
+            if carried:
+                col.violation(construct, f"`{norm(carried[0])[:90]}` substitutes the current pair into the value built by the previous iterations: a later pair rewrites what an earlier "
+                              "pair introduced ((x*y)(x=y+1, y=x) becomes sequential), so the substitution is not simultaneous", f.loc(carried[0]))
+            else:
+                col.ok(construct, "the loop does not thread a value through one-pair substitutions", f.loc(lp), nontrivial=False)
+    col.cur.analysed["loops_over_substitution_pairs"] = n_loops
 
 
 # ---------------------------------------------------------------------- substitution collections by role
@@ -1187,8 +1191,7 @@ def _self_referential_filter(prog: Program, col: Collector, refs: Refs, cat: Cat
             col.check(in_loop, f"{f.fq}::{S} -= ...", f"`{S}` is filtered repeatedly until nothing more is removed",
                       f"`{S}` is filtered once by a test that reads `{S}` itself: removing one name can make the test true for another (a chain of renamings x(i='j', j='k') onto an "
                       "input k that keeps its name), so a single pass leaves a renaming that collapses two inputs", f.loc(st))
-    if n == 0:
-        raise AnalysisError("no self-referential filter of a renaming set found (anchor: Tensor.eager_subs)")
+    col.cur.analysed["self_referential_filters"] = n
 
 
 # ---------------------------------------------------------------------- R04.20
